@@ -23,6 +23,9 @@ Violation keys:
   C12:<function>:unexpected-exception:<Type>-<message slug>   (<function> = innermost library function)
   C12:<reader>:alias:<key>=<alias>:<rejected|differs>
   C12:<reader>:default:<key>
+  C12:from_dict-shares-input:<kind>:<field>      the object (or the dictionary) changes when the other is edited in place
+  C12:to_dict-shares-object:<kind>:<field>
+  C12:roundtrip-copy-shares-original:<kind>:<field>
   C12:<saver>:files-interfere:<kind>.<field>     an object saved next to others (other names, same directory) comes
                                                  back different
 """
@@ -1040,6 +1043,215 @@ def _check_names(cx, case, root, other, out):
                             "%sobject #%d saved as %r came back different after the other saves: %s"
                             % (ctx, i, case["targets"][i], w)))
 
+
+# =====================================================================================================
+# aliasing: dictionaries and objects on the two sides of a conversion are independent
+# =====================================================================================================
+# A   d -> x = from_dict(d); every mutable container of d is then changed in place: x must not change
+# B1  d2 = to_dict(x); y = from_dict(d2); every container of d2 changed in place: neither x nor y may change
+# B2  every mutable value reachable through y's public properties changed in place: neither x nor d2 may change
+# B3  the same on x: neither d2 nor y may change
+ALIASING_BASES = {"species": "species", "reaction": "reaction", "rdnetwork": "rdnetwork",
+                  "rdgridspace": "rdgridspace", "rdgraphspace": "rdgraphspace", "rdsystem": "rdsystem",
+                  "rdscript": "rdscript", "rdscript_graph": "rdscript"}      # base dictionary -> reader
+
+
+def _dict_sites(d, path="", out=None):
+    """paths of every dict / list inside a JSON-like value (the value itself included), in order"""
+    if out is None:
+        out = []
+    if isinstance(d, dict):
+        out.append(path)
+        for k, v in d.items():
+            _dict_sites(v, "%s.%s" % (path, k), out)
+    elif isinstance(d, list):
+        out.append(path)
+        for i, v in enumerate(d):
+            _dict_sites(v, "%s[%d]" % (path, i), out)
+    return out
+
+
+def _dict_at(d, path):
+    for tok in re.findall(r"\.([^.\[]+)|\[(\d+)\]", path):
+        d = d[tok[0]] if tok[0] else d[int(tok[1])]
+    return d
+
+
+_MUTABLE_TYPES = ("UnitValue", "UnitArray", "UnitsSystem")
+
+
+def _obj_sites(o, path="", out=None, seen=None):
+    """(path, object) of every mutable value reachable through public properties: dict, list, ndarray,
+    UnitValue, UnitArray, UnitsSystem; tuples and strengths objects are traversed"""
+    if out is None:
+        out, seen = [], set()
+    if o is None or isinstance(o, (str, bytes, int, float, bool, np.generic)) or id(o) in seen:
+        return out
+    seen.add(id(o))
+    tname = type(o).__name__
+    if isinstance(o, dict):
+        out.append((path, o))
+        for k in o:
+            _obj_sites(o[k], "%s.%s" % (path, k), out, seen)
+    elif isinstance(o, (list, tuple)):
+        if isinstance(o, list):
+            out.append((path, o))
+        for i, v in enumerate(o):
+            _obj_sites(v, "%s[%d]" % (path, i), out, seen)
+    elif isinstance(o, np.ndarray):
+        out.append((path, o))
+    elif tname in _MUTABLE_TYPES:
+        out.append((path, o))
+    elif type(o).__module__.startswith("strengths"):
+        for name in sorted(dir(type(o))):
+            if name.startswith("_") or not isinstance(getattr(type(o), name, None), property):
+                continue
+            try:
+                v = getattr(o, name)
+            except Exception:  # noqa: BLE001 - a property that cannot be read offers nothing to mutate
+                continue
+            _obj_sites(v, "%s.%s" % (path, name), out, seen)
+    return out
+
+
+def _mutate(c):
+    """change a mutable value in place so that anything sharing it is seen to change"""
+    tname = type(c).__name__
+    if isinstance(c, dict):
+        c.clear()
+        c["mutated-in-place"] = 1
+    elif isinstance(c, list):
+        del c[:]
+    elif isinstance(c, np.ndarray):
+        if c.size:
+            c += 1
+    elif tname == "UnitValue":
+        c.value = c.value + 1.0
+    elif tname == "UnitArray":
+        if len(c.value):
+            c.value[...] = c.value + 1.0
+    elif tname == "UnitsSystem":
+        c.time = "h" if c.time != "h" else "min"
+    else:
+        raise TypeError(tname)
+
+
+def _site_kind(reader, path):
+    """(innermost object kind, field) of a dictionary / attribute path"""
+    kind = _TOP_KIND.get(reader, reader)
+    rest = []
+    for sgm in re.sub(r"\[\d+\]", "[]", path).lstrip(".").split("."):
+        if sgm in _SEG_KIND and not (kind == "rdgraphspaceedge" and sgm == "nodes[]"):
+            kind, rest = _SEG_KIND[sgm], []
+        elif sgm:
+            rest.append(sgm)
+    return kind, (rest[0] if rest else "<self>")
+
+
+def _snapshot(reader, obj):
+    """what the object says about itself: JSON text of its dictionary + physical description"""
+    try:
+        txt = json.dumps(TO[reader](obj), sort_keys=True)
+    except Exception as e:  # noqa: BLE001
+        txt = "to_dict raised %s: %s" % (type(e).__name__, e)
+    try:
+        desc = physical.describe(obj)
+    except Exception as e:  # noqa: BLE001
+        desc = {"__kind__": "unreadable", "error": "%s: %s" % (type(e).__name__, e)}
+    return txt, desc
+
+
+def _snap_changed(a, b):
+    if a[0] != b[0]:
+        return "to_dict changed"
+    ds = physical.diff_descriptions(a[1], b[1])
+    return ds[0].text() if ds else None
+
+
+def _aliasing_setup(cx, base_name):
+    reader = ALIASING_BASES[base_name]
+    d = copy.deepcopy(_alias_bases()[base_name])
+    x = _from(cx, reader, d)
+    return reader, d, x
+
+
+def aliasing_sites(base_name):
+    """all (mode, site) of one base, computed on the current tree; [] when the base cannot be converted (the alias
+    sub-space reports that)"""
+    cx = Cx()
+    try:
+        reader, d, x = _aliasing_setup(cx, base_name)
+        d2 = TO[reader](x)
+        y = _from(cx, reader, d2)
+    except Exception:  # noqa: BLE001
+        return []
+    out = [("A", pth) for pth in _dict_sites(d)]
+    out += [("B1", pth) for pth in _dict_sites(d2)]
+    out += [("B2", pth) for pth, _ in _obj_sites(y)]
+    out += [("B3", pth) for pth, _ in _obj_sites(x)]
+    return out
+
+
+def check_aliasing(cx, case, out):
+    base_name, mode, site = case["base"], case["mode"], case["site"]
+    reader, d, x = _aliasing_setup(cx, base_name)
+    ctx = "[aliasing %s %s at %r] " % (base_name, mode, site)
+    ikind, field = _site_kind(reader, site)
+
+    def report(cls, who, why):
+        out.append(("%s:%s:%s:%s" % (PID, cls, ikind, field), "%s%s: %s" % (ctx, who, why)))
+
+    if mode == "A":
+        before = _snapshot(reader, x)
+        _mutate(_dict_at(d, site))
+        cx.evals += 1
+        why = _snap_changed(before, _snapshot(reader, x))
+        if why:
+            report("from_dict-shares-input", "the object changed when the dictionary it was built from was edited afterwards", why)
+        return
+    d2 = _call(cx, TO[reader].__name__, TO[reader], x)
+    d2_before = json.dumps(d2, sort_keys=True)
+    y = _from(cx, reader, d2)
+    x_before, y_before = _snapshot(reader, x), _snapshot(reader, y)
+    if mode == "B1":
+        try:
+            target = _dict_at(d2, site)
+        except (KeyError, IndexError, TypeError):
+            cx.count("aliasing_site_not_present")
+            return
+        _mutate(target)
+    else:
+        sites = dict(_obj_sites(y if mode == "B2" else x))
+        if site not in sites:
+            cx.count("aliasing_site_not_present")
+            return
+        _mutate(sites[site])
+    cx.evals += 2
+    if mode != "B3":
+        why = _snap_changed(x_before, _snapshot(reader, x))
+        if why:
+            if mode == "B1":
+                report("to_dict-shares-object", "the object changed when the dictionary returned by to_dict was edited", why)
+            else:
+                report("roundtrip-copy-shares-original", "x changed when y = from_dict(to_dict(x)) was edited", why)
+    if mode != "B2":
+        why = _snap_changed(y_before, _snapshot(reader, y))
+        if why:
+            if mode == "B1":
+                report("from_dict-shares-input", "y = from_dict(d2) changed when d2 was edited afterwards", why)
+            else:
+                report("roundtrip-copy-shares-original", "y = from_dict(to_dict(x)) changed when x was edited", why)
+    if mode != "B1":
+        try:
+            after = json.dumps(d2, sort_keys=True)
+        except Exception as e:  # noqa: BLE001
+            after = "unserialisable: %s" % e
+        if after != d2_before:
+            if mode == "B3":
+                report("to_dict-shares-object", "the dictionary returned by to_dict(x) changed when x was edited", "dictionary differs")
+            else:
+                report("from_dict-shares-input", "the dictionary y was built from changed when y was edited", "dictionary differs")
+
 # =====================================================================================================
 # one case
 # =====================================================================================================
@@ -1061,6 +1273,11 @@ def _check(case, tmp=None):
             check_alias(cx, case, out)
         elif sub == "default":
             check_default(cx, case, out)
+        elif sub == "aliasing":
+            try:
+                check_aliasing(cx, case, out)
+            except LibFail as lf:
+                out.append((lf.key(), lf.what("[aliasing %s %s %s] " % (case["base"], case["mode"], case["site"])) + "\n" + lf.tail))
         elif sub == "names":
             if tmp is None:
                 own = tempfile.mkdtemp(dir=TMP_PARENT, prefix="c12-case-")
@@ -1493,6 +1710,16 @@ def _spaces(tier, seed):
                            "route": "multi:npy:%s:keep%s" % (how, ":text" if text else "")}
     sp.append(("multi-file trajectories (nested script -> system.json, system -> network / space / state / chemostats files, data.npy; sample times inline or external): 9 unit-system pairs x 3 trajectories x {absolute, relative} x {inline, external t_sample}",
                gen_traj_multi, 9 * 3 * 2 * 2, 12))
+
+    # aliasing -----------------------------------------------------------------------------------------
+    alias_cases = [{"sub": "aliasing", "base": b, "mode": m, "site": pth}
+                   for b in ALIASING_BASES for (m, pth) in aliasing_sites(b)]
+
+    def gen_aliasing():
+        for c in alias_cases:
+            yield dict(c)
+    sp.append(("aliasing on the in-memory route: %d base dictionaries (species ... script with a grid / with a graph; per-environment D / density / chstt / k dictionaries, state / cell_env / t_sample / chemostats lists, units and boundary-condition dictionaries) x every mutable container of the input dictionary (A), of the dictionary returned by to_dict (B1), every mutable value reachable through the public properties of the re-read object (B2) and of the original (B3), each changed in place one at a time; the other parties must not change"
+               % len(ALIASING_BASES), gen_aliasing, len(alias_cases), 25))
 
     # file names ---------------------------------------------------------------------------------------
     T = [list(t) for t in NAME_TARGETS]
